@@ -93,7 +93,15 @@ fn main() {
                 // are merged into this run's report)
                 envprobe::run(&ctx);
             }
-            props::run(&ctx)
+            // a panic of the harness itself is a machinery error, never a verdict
+            match std::panic::catch_unwind(std::panic::AssertUnwindSafe(|| props::run(&ctx))) {
+                Ok(c) => c,
+                Err(p) => {
+                    let msg = p.downcast_ref::<String>().cloned().or_else(|| p.downcast_ref::<&str>().map(|s| s.to_string())).unwrap_or_else(|| "panic".into());
+                    println!("MACHINERY-ERROR {} harness panicked: {msg}", ctx.id);
+                    2
+                }
+            }
         }
     };
     std::process::exit(code);
